@@ -6,8 +6,8 @@ use serde_json::Value;
 
 use crate::builder::{build_decoded, build_recorded, check_c13, check_c18, BuildCase, BuildFacts};
 use crate::model::{root_path_count, user_edges, GraphSpec, Kind, TestFn};
-use crate::oracle::Violation;
-use crate::single::hash_of;
+use crate::violation::Violation;
+use crate::violation::hash_of;
 
 /// CPU time consumed by the calling thread, in seconds (immune to the thread
 /// being descheduled on a loaded machine, unlike the wall clock).
